@@ -110,6 +110,11 @@ def build_wrong(rnd, kind):
     if kind == "other-hrp":
         other = "tb" if hrp == "bc" else "bc"
         return hrp, rbech.bech_encode(other, data, const)
+    if kind == "related-hrp":
+        # a prefix RELATED to the expected one: it extends it across a '1' (bc -> bc1q, so the string still starts with
+        # "bc1"), is a prefix / suffix of it, differs in its last character, or is its upper-case form with lower data
+        rel = rnd.choice([hrp + "1" + x for x in ("", "q", "p", "zz", "qq1", "1")] + [hrp[:1], hrp + "c", hrp + "r", hrp[:-1] + "d", "x" + hrp, hrp + hrp])
+        return hrp, rbech.bech_encode(rel, data, const)
     if kind == "wrong-const":
         return hrp, rbech.bech_encode(hrp, data, rbech.BECH32M_CONST if v == 0 else rbech.BECH32_CONST)
     if kind == "nonzero-padding":
@@ -151,7 +156,7 @@ def build_wrong(rnd, kind):
     raise ValueError(kind)
 
 
-B_KINDS = ["mixed-case", "other-hrp", "wrong-const", "nonzero-padding", "long-padding", "v0-bad-length", "too-short",
+B_KINDS = ["mixed-case", "other-hrp", "related-hrp", "related-hrp", "wrong-const", "nonzero-padding", "long-padding", "v0-bad-length", "too-short",
            "too-long-program", "version>16", ">90-chars", "empty-data", "no-separator-hrp"]
 
 
